@@ -115,7 +115,9 @@ FAMILIES = {
         rule='WAL buses with nested, awaited and forwarded events, parallel handlers, payloads (nested containers, unicode, datetimes, big ints), '
              'I/O faults on open/write; non-trivial: at least two WAL lines and one other activation'),
     'C18': dict(
-        gens=[('core', dict(p_expect=0.3, ntasks=(1, 3), tasklen=(2, 7)), 0.8),
+        gens=[('core', dict(p_expect=0.3, ntasks=(1, 3), tasklen=(2, 7)), 0.65),
+              # several concurrent expect() calls on one bus (same and different keys, different deadlines)
+              ('expects', dict(), 0.15),
               # ... while ordinary handlers of the events fail: time out, raise, let a CancelledError escape
               ('core', dict(p_expect=0.3, ntasks=(1, 3), tasklen=(2, 7), p_timeout=0.5, p_raise=0.2, proglen=(1, 5)), 0.2)],
         facets=['expect', 'registry', 'handlers', 'lifecycle', 'activation', 'harness', 'other', 'timeout', 'results'],
@@ -127,7 +129,7 @@ FAMILIES = {
     'C12': dict(engine='eng_results', facets=[], rule='see eng_results.py'),
 }
 
-BUDGET = {'quick': 960, 'thorough': 16000}
+BUDGET = {'quick': 1130, 'thorough': 18800}
 
 
 def gen_backlog(rng, p_waitidle=0.0, **_):
@@ -167,7 +169,7 @@ def gen_backlog(rng, p_waitidle=0.0, **_):
     return sc
 
 
-GENS = {'core': gen.gen_core, 'backlog': gen_backlog, 'chain': gen.gen_chain, 'stop': gen.gen_stop, 'idle': gen.gen_idle, 'deep': gen.gen_deep, 'sibling': gen.gen_sibling, 'parraise': gen.gen_parraise, 'deepfwd': gen.gen_deepfwd, 'parshare': gen.gen_parshare, 'partimeout': gen.gen_partimeout, 'cycle': gen.gen_cycle, 'errnest': gen.gen_errnest, 'fwdfail': gen.gen_fwdfail, 'evictgap': gen.gen_evictgap}
+GENS = {'core': gen.gen_core, 'backlog': gen_backlog, 'chain': gen.gen_chain, 'stop': gen.gen_stop, 'idle': gen.gen_idle, 'deep': gen.gen_deep, 'sibling': gen.gen_sibling, 'parraise': gen.gen_parraise, 'deepfwd': gen.gen_deepfwd, 'parshare': gen.gen_parshare, 'partimeout': gen.gen_partimeout, 'cycle': gen.gen_cycle, 'errnest': gen.gen_errnest, 'fwdfail': gen.gen_fwdfail, 'evictgap': gen.gen_evictgap, 'expects': gen.gen_expects}
 
 
 MIX_SHARE = 0.15
